@@ -1042,11 +1042,16 @@ fn _update_tx_pool_for_reorg(
     if mine_mode {
         let mut proposals = Vec::new();
         let mut gaps = Vec::new();
+        let mut pendings = Vec::new();
 
         for entry in tx_pool.pool_map.entries.get_by_status(&Status::Gap) {
             let short_id = entry.inner.proposal_short_id();
             if snapshot.proposals().contains_proposed(&short_id) {
                 proposals.push((short_id, entry.inner.clone()));
+            } else if !snapshot.proposals().contains_gap(&short_id) {
+                // the block that proposed it has been detached: ids leaving the gap are not
+                // reported as detached proposals, so the entry has to be put back here
+                pendings.push(short_id);
             }
         }
 
@@ -1072,6 +1077,11 @@ fn _update_tx_pool_for_reorg(
             } else {
                 callbacks.call_proposed(&entry)
             }
+        }
+
+        for id in pendings {
+            debug!("back to pending: {:x}", id);
+            tx_pool.pool_map.set_entry(&id, Status::Pending);
         }
 
         for (id, entry) in gaps {
